@@ -1,6 +1,8 @@
 // C19: the arithmetic building blocks against definitional reference implementations.
 // groups: small (complete domain 1..65536 x all 64 alignments), boundary (2^k + d, |d| <= 64, x 64 alignments),
 // random (seeded 64-bit values), buckets (every size 1..4096, three lists x two bucket distributions).
+#include <atomic>
+#include <thread>
 #include <unordered_set>
 
 #include <foonathan/memory/detail/align.hpp>
@@ -130,6 +132,15 @@ namespace
         if (v == 0)
             return;
         ++evals;
+        {
+            // the predicate the alignment helpers assert on: exactly the powers of two (all 64 of them) are alignments
+            int bits = 0;
+            for (int k = 0; k < 64; ++k)
+                bits += int((v >> k) & 1);
+            bool iv = detail::is_valid_alignment(std::size_t(v));
+            if (iv != (bits == 1))
+                viol("C19", "C19/is_valid_alignment/mismatch", "is_valid_alignment(%llu) = %d, the value has %d bits set", (unsigned long long)v, int(iv), bits);
+        }
         auto af = detail::alignment_for(std::size_t(v));
         if (af != ref_alignment_for(v))
             viol("C19", "C19/alignment_for/mismatch", "alignment_for(%llu) = %llu, largest power of two dividing it (capped at %zu) is %llu",
@@ -261,6 +272,53 @@ int main(int argc, char** argv)
                 check_buckets<detail::free_memory_list, detail::log2_access_policy>("node", "log2", m);
                 check_buckets<detail::ordered_free_memory_list, detail::log2_access_policy>("ordered", "log2", m);
                 check_buckets<detail::small_free_memory_list, detail::log2_access_policy>("small", "log2", m);
+                flag("buckets");
+            });
+        else if (a.group == "buckets-threads")
+            run_case("buckets-threads", c, [&] {
+                // bucket selection is a pure function of the size: several threads, each with free list arrays of its own and a size
+                // range of its own, must all get the answers the single-threaded reference gives
+                int nthreads = 2 + int(c % 5);
+                op("%d threads selecting buckets at once (own arrays, different size ranges)", nthreads);
+                std::atomic<long> wrong{0}, lookups{0};
+                std::atomic<int>  ready{0};
+                std::vector<std::thread> th;
+                for (int t = 0; t < nthreads; ++t)
+                    th.emplace_back([&, t] {
+                        static thread_local char    storage[1 << 15];
+                        detail::fixed_memory_stack  st(storage);
+                        std::size_t                 max_node = std::size_t(64) << (t % 5);
+                        detail::free_list_array<detail::free_memory_list, detail::log2_access_policy>  lg(st, storage + sizeof storage, max_node);
+                        detail::free_list_array<detail::small_free_memory_list, detail::identity_access_policy> id(st, storage + sizeof storage, 64);
+                        ready.fetch_add(1);
+                        while (ready.load() < nthreads)
+                            std::this_thread::yield();
+                        rng  r(std::uint64_t(a.seed) * 7919 + std::uint64_t(c) * 131 + std::uint64_t(t));
+                        long n = a.num("lookups", 200000);
+                        for (long i = 0; i < n; ++i)
+                        {
+                            std::size_t s  = r.range(1, max_node);
+                            auto        ns = lg.get(s).node_size();
+                            std::size_t lo = std::max<std::size_t>(s, 8);
+                            if (ns < lo || ns >= 2 * lo || (ns & (ns - 1)) != 0)
+                                wrong.fetch_add(1, std::memory_order_relaxed);
+                            if (detail::log2_access_policy::index_from_size(s) != ref_ilog2_ceil(s)
+                                || detail::log2_access_policy::size_from_index(ref_ilog2_ceil(s)) != (std::size_t(1) << ref_ilog2_ceil(s)))
+                                wrong.fetch_add(1, std::memory_order_relaxed);
+                            std::size_t s2 = r.range(1, 64);
+                            if (id.get(s2).node_size() != s2)
+                                wrong.fetch_add(1, std::memory_order_relaxed);
+                        }
+                        lookups.fetch_add(n);
+                    });
+                for (auto& t : th)
+                    t.join();
+                evals += lookups.load();
+                count("concurrent_lookups", lookups.load());
+                if (wrong.load())
+                    viol("C19", "C19/buckets-threads/mismatch",
+                         "%ld of %ld bucket selections made while other threads were selecting buckets for other sizes disagree with the reference", wrong.load(),
+                         lookups.load());
                 flag("buckets");
             });
         else if (a.group == "buckets-static")
